@@ -474,6 +474,8 @@ fn run_lane(
                                 let is_assert = msg.contains("assertion");
                                 if lane == "chk" && is_assert {
                                     merge_counter(&mut a.counters, "debug_only_assertions", 1);
+                                    let site = format!("debug_assert@{}", panic_sig(&msg, &loc));
+                                    merge_counter(&mut a.counters, &site, 1);
                                 } else {
                                     a.violations.push(json!({
                                         "idx": idx, "lane": lane,
@@ -611,6 +613,7 @@ pub fn coordinator(check: &dyn Check, opts: &RunOpts) -> i32 {
                 "violations": la.violations.len(),
                 "worker_restarts": la.worker_restarts,
                 "debug_only_assertions": la.counters.get("debug_only_assertions").copied().unwrap_or(0),
+                "debug_only_assertion_sites": la.counters.iter().filter(|(k, _)| k.starts_with("debug_assert@")).map(|(k, v)| (k.clone(), json!(v))).collect::<Map<String, Value>>(),
                 "inconclusive": la.inconclusive,
             }),
         );
